@@ -50,7 +50,8 @@ TrReset ==
   /\ fl' = FlInit
   /\ Same
 
-BorOK(pr, gs) == E.b = View(pr, gs)
+\* (histories over hundreds of types are recorded without the probed borrow table: a projection)
+BorOK(pr, gs) == ("b" \in DOMAIN E) => E.b = View(pr, gs)
 
 TrReg ==
   /\ Is("reg")
